@@ -186,6 +186,15 @@ def analyse_pages(outdir, rec, r):
             mdat = re.match(r"\.\. py:(?:data|function):: (\w+)", line)
             if mdat and cur:
                 declared.add(cur + "." + mdat.group(1))
+    # every page is listed in the table of contents of its parent package page (otherwise it cannot be reached)
+    for stem in sorted(got & set(exp)):
+        parent = stem.rsplit(".", 1)[0] if "." in stem else None
+        if parent and parent in exp and exp[parent][0] == "package" and parent in got:
+            with open(os.path.join(outdir, parent + ".rst"), encoding="utf-8") as f:
+                ptext = f.read()
+            rec.hit("toctree_entries_expected")
+            if not re.search(r"^\s+" + re.escape(stem) + r"\s*$", ptext, re.M):
+                rec.violation(f"toctree-entry-missing:{parent}", f"{parent}.rst does not list its page {stem} in a table of contents", {"page": parent, "child": stem})
     for stem in sorted(got & set(exp)):
         rec.checkpoint(20)
         kind, src = exp[stem]
@@ -274,6 +283,9 @@ def analyse_pages(outdir, rec, r):
                 title = doc_lines[brk - 1].strip()
                 head = text.split(".. py:currentmodule::")[0]
                 rec.hit("descriptions_checked")
+                pl = text.splitlines()
+                if len(pl) < 3 or pl[0].strip() != title or not pl[1] or set(pl[1]) - {"=", "-"} or len(pl[1]) < len(title) or pl[2].strip():
+                    rec.violation(f"page-heading-malformed:{stem}", f"{stem}.rst does not start with its title, one underline and a blank line: {pl[:3]!r}", case)
                 if head.count("\n" + doc_lines[brk] + "\n") + head.startswith(doc_lines[brk]) > 1 or head.splitlines().count(title) != 1:
                     rec.violation(f"description-unfaithful:{stem}:title-repeated", f"{stem}.rst repeats its title / section break inside the description", case)
                 pos = 0
